@@ -32,9 +32,9 @@ func H_C37_convert() {
 		// a previous conversion leaves its newline buffer behind
 		_, _, _ = conv.Convert([]byte("a\nb\n\nab"), nil)
 	}
-	n := verifrt.Concretize(verifrt.IntRange("n", 0, verifrt.Param("n", 4, 6)))
+	n := verifrt.Concretize(verifrt.IntRange("n", 0, verifrt.Param("n", 4, 5)))
 	content := c37Content("c", n)
-	nt := verifrt.Concretize(verifrt.IntRange("tags", 0, verifrt.Param("tags", 2, 3)))
+	nt := verifrt.Concretize(verifrt.IntRange("tags", 0, verifrt.Param("tags", 2, 2)))
 	var tags []*ctags.Entry
 	for i := 0; i < nt; i++ {
 		l := verifrt.Concretize(verifrt.IntRange("namelen", 0, 2))
